@@ -55,9 +55,11 @@ def _sig(offs):
 
 def _tmpdir():
     if "tmp" not in _state:
-        _state["tmp"] = tempfile.mkdtemp(prefix="c19_%d_" % os.getpid())
-        import atexit
-        atexit.register(shutil.rmtree, _state["tmp"], True)
+        # pool workers are terminated without atexit: everything lives under one directory named after the
+        # runner's pid, which extra_phase() (run in the parent after the stages) removes
+        base = os.path.join(tempfile.gettempdir(), "c19_run_%d" % _state.get("owner", os.getppid()))
+        os.makedirs(base, exist_ok=True)
+        _state["tmp"] = tempfile.mkdtemp(prefix="w%d_" % os.getpid(), dir=base)
     return _state["tmp"]
 
 
@@ -227,6 +229,7 @@ except BaseException as e:
 
 def extra_phase(ctx, known, total):
     """Level 2: damage the cache inside a full copy of the package and import it in a new interpreter."""
+    shutil.rmtree(os.path.join(tempfile.gettempdir(), "c19_run_%d" % os.getpid()), ignore_errors=True)
     tmp = tempfile.mkdtemp(prefix="c19_l2_")
     info = {"level2_faults": 0, "level2_failures": 0}
     try:
